@@ -13,6 +13,7 @@ RULE = "Wlayout (see C01). One evaluation = one layer solved inside Force.comput
 ASSUMPTIONS = [
     "targets are computed by the monitor at layer entry (data position, or the current position of the item's own stub in the nearer layer), not read from the code's targetPos",
     "separation slack 1 (integer rounding of both positions) + 1e-9; optimum/bounds tolerance 0.5 (rounding) + 1e-3 (1e10-weight soft walls)",
+    "the bounds are soft walls of weight 1e10: they yield by (sum of the pulls on them)/1e10, i.e. by more than the 1e-3 granted only when labels lie millions of units outside a bound; the workload keeps labels within ~1e4 units of the bounds (positions themselves range up to 1e7 from the origin)",
 ]
 
 
